@@ -107,3 +107,14 @@ C("C13", "exploration",
   "exp(-X/L) with X from the exact chord integral (C15 bound), interaction weight formula from independent chords, shadow acceptance and every "
   "rejected throw re-derived, count = throws. ListGenerator: BFS over create/set-count histories, loop on/off. Open findings K7, K8.",
   "distributional claims as exact statements about the map from uniform variates; secondaries off in the event tree", "DESIGN.md §4 C13")
+C("C11", "model_checking",
+  "exhaustive history tree of add()/rejected-add sequences x configuration product, each replayed on the real writer into a fresh file and read back with the real reader against a reference event log",
+  "Configurations: valid write_* flag combinations within deviation bound 2 of the defaults (quick; all 24 thorough) x 9 require_trigger settings "
+  "(bool, each single key, all keys) x detector sizes 1..3. Histories: every sequence of length <= 2 (quick) / 3 (thorough, reduced alphabet) over 7 "
+  "event specs (1-2 particles; bool / dict / extra-key / per-waveform-list triggers; unequal ray and waveform counts per antenna incl. 0) and 5 "
+  "argument-validation faults. Every history is written with HDF5Writer into a fresh file and read back sequentially: event count == accepted "
+  "adds, per-event particles, rays + polarizations, global and component triggers (also per waveform), noise bases, waveforms equal the "
+  "reference log or are absent where the options say so; every (start,length) of /event_indices lies inside its dataset; rejected adds "
+  "(which must be exactly the faulty ones) leave earlier and later events intact.",
+  "ray paths are recording stubs with the real metadata keys; I/O errors in the middle of an add are not in the fault alphabet; files "
+  "without any particle table are outside the alphabet", "DESIGN.md §4 C11")
